@@ -1,6 +1,7 @@
 import PikaVerif.Props.C07
 import PikaVerif.Lemmas.CVFin
 import PikaVerif.Lemmas.CVCov
+import PikaVerif.Lemmas.CVSolo
 /-!
 # C07t — termination / bounded progress of the condition-variable operations (follow-up of C07)
 
@@ -34,6 +35,8 @@ bounds *modulo spinning on one of these three locks*.  Deadline expiry is a sche
   holding it; (c) threads whose next operation violates its precondition (`wait` / `unlock` /
   `set` without the user lock, `lock` while holding it) — (b) and (c) are errors of the program,
   not of the condition variable (`C07t_final_state`).
+* One `notify_all` run alone (`|queue| + 4` events) followed by the woken waiters run alone (at
+  most 9 events each) completes all of them (`C07t_notify_all_wakes`).
 * Covering (`C07t_covered_all_return`, `C07t_pred_covered`) and the classic lost wake-up as a
   checked witness (`lostProg`, `lostRun`).
 -/
@@ -328,5 +331,67 @@ example : ∃ p, runLog pstep (pinit 2 false predProg) predRun2 = some p ∧ PSt
     potential of its operation, every other event takes at least 1 -/
 example : mu (init 2 false) = 2 := by decide
 example : bound 2 lostProg = 2 + (2 + 19 + 2) + (2 + (29 * 2 + 6) + 2) := by decide
+
+/-! ## Solo bound -/
+
+/-- **One `notify_all` wakes and completes every parked waiter, with explicit step bounds.**  In any
+    reachable state where thread `r` has invoked `notify_all`, the internal lock and the user lock
+    are free and the threads on the wait queue are parked in an untimed `wait` / `wait(pred)` (for
+    the predicate form the flag is true): the notifier running alone (`nallSolo`, exactly
+    `|queue| + 4` events) pops and resumes every queued waiter (each gets its wake-up token) and
+    returns; then the woken waiters, each running alone in queue order (`wakeAllLog`, `8` events per
+    plain wait, `9` per predicate wait: wake, re-take the internal lock, `cv.woke`, release it,
+    re-take the user lock, [re-test the predicate], return, `unlock`), all return — at most
+    `10 |queue| + 4` events in total — and the run ends with the queue empty and both locks free. -/
+theorem C07t_notify_all_wakes (s : St) (hr : Reachable s) (r : Nat) (hrn : r < s.n)
+    (hl : s.lock = none) (hu : s.ulock = none) (hp : s.pc r = .nWant) (hc : s.curOp r = .notify true)
+    (hpark : ∀ g, g ∈ s.queue → s.pc g = .susp false ∧
+      ∃ pr, s.curOp g = .wait false pr ∧ (pr = true → s.flag = true)) :
+    ∃ s2, runLog step s (nallSolo r s.queue ++ wakeAllLog (fun g => isPred (s.curOp g)) s.queue) = some s2 ∧
+      (nallSolo r s.queue).length = s.queue.length + 4 ∧
+      (wakeAllLog (fun g => isPred (s.curOp g)) s.queue).length ≤ 9 * s.queue.length ∧
+      (nallSolo r s.queue ++ wakeAllLog (fun g => isPred (s.curOp g)) s.queue).length ≤ 10 * s.queue.length + 4 ∧
+      s2.pc r = .idle ∧ (∀ g, g ∈ s.queue → s2.pc g = .idle) ∧
+      s2.queue = [] ∧ s2.lock = none ∧ s2.ulock = none := by
+  obtain ⟨hi, _⟩ := hr.inv
+  have hnd := hi.qNodup
+  have hqn : ∀ g, g ∈ s.queue → g < s.n := by
+    intro g hg
+    have h1 := (hi.qIff g).1 hg
+    apply Classical.byContradiction
+    intro hge
+    rw [hi.outside g (by omega)] at h1; simp [inQ] at h1
+  have hrq : r ∉ s.queue := by intro hm; have := (hpark r hm).1; rw [hp] at this; simp at this
+  obtain ⟨s1, a1, a2, a3, a4, a5, a6, a7, a8, a9⟩ :=
+    nallSolo_spec r s hl hrn hp hc (fun g hg => (hpark g hg).1) hnd
+  obtain ⟨s2, b1, b2, b3, b4, b5, b6, b7, b8⟩ :=
+    wakeAll_spec (fun g => isPred (s.curOp g)) s.queue s1 a2 (by rw [a6]; exact hu) hnd
+      (by intro g hg
+          obtain ⟨c1, c2, c3⟩ := a8 g hg
+          obtain ⟨_, pr, d1, d2⟩ := hpark g hg
+          refine ⟨by rw [a3]; exact hqn g hg, c1, by omega, ?_, ?_⟩
+          · rw [c3, d1]; simp [isPred]
+          · intro hpr; rw [a7]; apply d2; rw [d1] at hpr; simpa [isPred] using hpr)
+  have hlen1 := nallSolo_length r s.queue
+  have hlen2 := wakeAllLog_length (fun g => isPred (s.curOp g)) s.queue
+  refine ⟨s2, ?_, hlen1, hlen2, by rw [List.length_append]; omega, ?_, b7, by rw [b5, a5], b2, b3⟩
+  · rw [runLog_append, a1]; simpa using b1
+  · rw [(b8 r hrq).1]; exact a4
+
+/-- non-vacuity: two threads parked in `wait` and `wait(pred)` (flag set meanwhile), thread 2 invokes
+    `notify_all` with both locks free: the solo run of the theorem (`2 + 4` events, then `8 + 9`)
+    is accepted from that state and ends with all three threads idle -/
+def soloPrefix : List Ev :=
+  [.inv 0 .lock, .ulAcq 0, .inv 0 (.wait false false), .slAcq 0, .ulRel 0, .cvEnq 0 1 false, .slRel 0, .suspend 0,
+   .inv 1 .lock, .ulAcq 1, .inv 1 (.wait false true), .pred 1 false, .slAcq 1, .ulRel 1, .cvEnq 1 2 false,
+   .slRel 1, .suspend 1,
+   .inv 2 .lock, .ulAcq 2, .inv 2 (.set true), .setFlag 2 true, .inv 2 .unlock, .ulRel 2,
+   .inv 2 (.notify true)]
+
+example : (runLog step (init 3 false)
+    (soloPrefix ++ nallSolo 2 [0, 1] ++ wakeAllLog (fun g => decide (g = 1)) [0, 1])).isSome = true := by
+  decide
+
+example : (nallSolo 2 [0, 1] ++ wakeAllLog (fun g => decide (g = 1)) [0, 1]).length = 6 + 8 + 9 := by decide
 
 end PikaVerif.C07t
